@@ -59,7 +59,7 @@ theorem Safe.mapM {α} {wf : α → Prop} {f : T → PM α} :
     · exact hvs.2 x hx
 
 /-- a tree of rule `r` on which `build` is safe -/
-def Good {α} (r : PRule) (build : T → PM α) (wf : α → Prop) (t : T) : Prop :=
+@[reducible] def Good {α} (r : PRule) (build : T → PM α) (wf : α → Prop) (t : T) : Prop :=
   t.rule = r ∧ Safe wf (build t)
 
 /-! ### `Except` do-blocks -/
